@@ -244,6 +244,10 @@ def geometry_cases(draw, tier="quick"):
 
     def radial_axis():
         n = draw(st.integers(1, 6))
+        if not full and draw(st.integers(0, 5)) == 0:
+            # radii stored in single precision (r2**2 - r1**2 cancels: the measure must come from the numbers)
+            e_ = [float(np.float32(x)) for x in (1000.0, 1000.01, 1000.03, 1000.5, 1002.0)][: draw(st.integers(2, 5))]
+            return {"form": draw(st.sampled_from(["static", "numpy"])), "pairs": [[a, b] for a, b in zip(e_[:-1], e_[1:])], "incl": True, "edge_dtype": "float32"}
         r0 = 0.0 if full else draw(st.sampled_from([0.0, 0.5, 3.0]))
         R = r0 + draw(st.sampled_from([1.0, 2.5, 10.0, 100.0]))
         return {"form": draw(st.sampled_from(["static", "numpy"])), "pairs": rising(draw, r0, R, n, True), "incl": True}
@@ -274,6 +278,15 @@ def geometry_cases(draw, tier="quick"):
                 e_.append(e_[-1] + draw(st.sampled_from([1.0, 2.0, 3.0, 0.5, 4.0])))
             sc_ = draw(st.sampled_from([1e-9, 1e-12, 2.0 ** -30]))
             axes[k_] = {"form": draw(st.sampled_from(["static", "numpy", "edges"])), "pairs": [[a * sc_, b * sc_] for a, b in zip(e_[:-1], e_[1:])], "incl": True}
+        if draw(st.integers(0, 5)) == 0:
+            # edges handed over as an int32 / float32 array: geometry is that of the numbers, not of the storage type
+            k_ = draw(st.integers(0, d - 1))
+            if draw(st.booleans()):
+                e_ = sorted(draw(st.lists(st.sampled_from([-2_000_000_000, -5, 0, 7, 1_000_000, 2_000_000_000, 2_100_000_000, 2_140_000_000]), min_size=2, max_size=5, unique=True)))
+                axes[k_] = {"form": draw(st.sampled_from(["static", "numpy", "edges"])), "pairs": [[float(a), float(b)] for a, b in zip(e_[:-1], e_[1:])], "incl": True, "edge_dtype": "int32"}
+            else:
+                e_ = [float(np.float32(x)) for x in (1000.0, 1000.01, 1000.03, 1000.5, 1002.0)][: draw(st.integers(2, 5))]
+                axes[k_] = {"form": draw(st.sampled_from(["static", "numpy", "edges"])), "pairs": [[a, b] for a, b in zip(e_[:-1], e_[1:])], "incl": True, "edge_dtype": "float32"}
         for i, ax in enumerate(axes):  # denormal-scale widths only exercise product underflow: out of domain
             if min(r - l for l, r in ax["pairs"]) < 1e-60:
                 axes[i] = {"form": "static", "pairs": [[0.0, 1.0], [1.0, 3.0], [3.0, 3.5]], "incl": True}
